@@ -1,8 +1,8 @@
 (* C07 -- Resolution is local and independent of declaration order.
-   Statements only; proofs are [exact] of lemmas in Resolver/LocalFacts.v, CondFacts.v, Ext.v, PermFacts.v. *)
+   Statements only; proofs are [exact] of lemmas in Resolver/LocalFacts.v, CondFacts.v, Ext.v, PermFacts.v, Trace.v. *)
 From Coq Require Import List Bool NArith ZArith Permutation.
 From PV Require Import Base.Str Base.Value Resolver.Consts Resolver.Text Resolver.Resolve Resolver.Spec Resolver.Ext
-  Resolver.Template Resolver.CondFacts Resolver.ParamFacts Resolver.LocalFacts Resolver.PermFacts.
+  Resolver.Template Resolver.CondFacts Resolver.ParamFacts Resolver.LocalFacts Resolver.PermFacts Resolver.Trace.
 Import ListNotations.
 Local Open Scope N_scope.
 
@@ -221,3 +221,191 @@ Example C07_ex_duplicate_keys_excluded :
   resolve e1 (VDict [(K_Sub, VList [VStr [36;123;86;125]; VDict [([86], VStr [121]); ([86], VStr [120])]])]) = Ok (VStr [121]) /\
   nodup_keysb (VDict [([86], VStr [120]); ([86], VStr [121])]) = false.
 Proof. vm_compute. repeat split; reflexivity. Qed.
+
+(* ================================================================================================================== *)
+(* Adding unused parameters, mappings or conditions changes nothing (Resolver/Trace.v).
+
+   "Unused" is SEMANTIC: a name is used iff the resolver actually looks it up.  [resolve_tr e v] is [resolve e v] together with
+   the list of the environment accesses made on the way (also on runs that end in an exception):
+     AParam k : lookup k (params e)   -- Ref / Fn::ImportValue, a Fn::Sub placeholder not bound by the expression's own map, the
+                                         key of a {{resolve:ssm:NAME:VERSION}} string (in a leaf of the expression, of a
+                                         parameter VALUE being inserted, of a Fn::Sub variable value);
+     AMap m   : lookup m (mappings e) -- Fn::FindInMap;
+     ACond n  : conds e n             -- Condition, Fn::If.
+   [trace_of e v] abbreviates [snd (resolve_tr e v)].  [C07_env_lookups_only] above needs the same answer for EVERY key, so
+   it does not speak about a template that gains a declaration; the theorems below do. *)
+(* ================================================================================================================== *)
+
+(* the instrumentation is faithful: the instrumented resolver returns what [resolve] returns *)
+Theorem C07_trace_same_result : forall e v, fst (resolve_tr e v) = resolve e v.
+Proof. exact resolve_tr_result. Qed.
+Print Assumptions C07_trace_same_result.
+
+(* THE FRAME THEOREM: two environments that answer alike every access made while resolving v in e give the same result (value
+   or exception) -- and the same accesses, so "e' agrees with e on what e reads" is a symmetric relation *)
+Theorem C07_unused_ext : forall e e' v,
+  (forall k, In (AParam k) (snd (resolve_tr e v)) -> lookup k (params e) = lookup k (params e')) ->
+  (forall m, In (AMap m) (snd (resolve_tr e v)) -> lookup m (mappings e) = lookup m (mappings e')) ->
+  (forall n, In (ACond n) (snd (resolve_tr e v)) -> conds e n = conds e' n) ->
+  resolve e' v = resolve e v /\ snd (resolve_tr e' v) = snd (resolve_tr e v).
+Proof. exact unused_ext. Qed.
+Print Assumptions C07_unused_ext.
+
+(* a new binding for a name that is never read: in front (where it would shadow an older binding of that name) ... *)
+Theorem C07_add_unused_parameter : forall e v k x, ~ In (AParam k) (snd (resolve_tr e v)) ->
+  resolve {| params := (k, x) :: params e; mappings := mappings e; conds := conds e |} v = resolve e v.
+Proof. exact add_unused_parameter. Qed.
+Print Assumptions C07_add_unused_parameter.
+(* ... or anywhere in the parameter list *)
+Theorem C07_add_unused_parameter_anywhere : forall e v k x l1 l2, params e = l1 ++ l2 -> ~ In (AParam k) (snd (resolve_tr e v)) ->
+  resolve {| params := l1 ++ (k, x) :: l2; mappings := mappings e; conds := conds e |} v = resolve e v.
+Proof. exact add_unused_parameter_anywhere. Qed.
+Print Assumptions C07_add_unused_parameter_anywhere.
+(* the converse: a binding that is never read can be deleted *)
+Theorem C07_remove_unused_parameter : forall e v k x l1 l2, params e = l1 ++ (k, x) :: l2 -> ~ In (AParam k) (snd (resolve_tr e v)) ->
+  resolve {| params := l1 ++ l2; mappings := mappings e; conds := conds e |} v = resolve e v.
+Proof. exact remove_unused_parameter. Qed.
+Print Assumptions C07_remove_unused_parameter.
+(* most generally: ANY other parameter list that binds the names actually read to the same values *)
+Theorem C07_change_unread_parameters : forall e ps' v,
+  (forall k, In (AParam k) (snd (resolve_tr e v)) -> lookup k ps' = lookup k (params e)) ->
+  resolve {| params := ps'; mappings := mappings e; conds := conds e |} v = resolve e v.
+Proof. exact change_unread_parameters. Qed.
+Print Assumptions C07_change_unread_parameters.
+
+Theorem C07_add_unused_mapping : forall e v m x, ~ In (AMap m) (snd (resolve_tr e v)) ->
+  resolve {| params := params e; mappings := (m, x) :: mappings e; conds := conds e |} v = resolve e v.
+Proof. exact add_unused_mapping. Qed.
+Print Assumptions C07_add_unused_mapping.
+Theorem C07_add_unused_mapping_anywhere : forall e v m x l1 l2, mappings e = l1 ++ l2 -> ~ In (AMap m) (snd (resolve_tr e v)) ->
+  resolve {| params := params e; mappings := l1 ++ (m, x) :: l2; conds := conds e |} v = resolve e v.
+Proof. exact add_unused_mapping_anywhere. Qed.
+Print Assumptions C07_add_unused_mapping_anywhere.
+
+(* conditions reach the resolver as the function [conds]: a condition table that differs only on a name never asked about ... *)
+Theorem C07_add_unused_condition : forall e v n b, ~ In (ACond n) (snd (resolve_tr e v)) ->
+  resolve {| params := params e; mappings := mappings e; conds := fun m => if str_eqb m n then b else conds e m |} v = resolve e v.
+Proof. exact add_unused_condition. Qed.
+Print Assumptions C07_add_unused_condition.
+(* ... or on any set of names never asked about *)
+Theorem C07_change_unread_conditions : forall e c' v,
+  (forall n, In (ACond n) (snd (resolve_tr e v)) -> c' n = conds e n) ->
+  resolve {| params := params e; mappings := mappings e; conds := c' |} v = resolve e v.
+Proof. exact change_unread_conditions. Qed.
+Print Assumptions C07_change_unread_conditions.
+
+(* WHY the statement is semantic.  A name can be COMPUTED: {"Ref": {"Fn::Join": ["", ["a", "b"]]}} reads parameter "ab" although
+   the text "ab" occurs in no string and no key of the expression ([mentions]); removing that parameter changes the result *)
+Example C07_ex_computed_name :
+  v_ab = VDict [(K_Ref, VDict [(K_Join, VList [VStr []; VList [VStr [97]; VStr [98]]])])] /\
+  params e_ab = [([97; 98], VStr [120])] /\
+  mentions [97; 98] v_ab = false /\
+  snd (resolve_tr e_ab v_ab) = [AParam [97; 98]] /\
+  resolve e_ab v_ab = Ok (VStr [120]) /\
+  resolve {| params := []; mappings := mappings e_ab; conds := conds e_ab |} v_ab = Ok (VStr (undefined_param [97; 98])).
+Proof. vm_compute. repeat split; reflexivity. Qed.
+
+(* A SYNTACTIC sufficient condition, because users think syntactically.  It needs the fragment where names are not computed:
+   [literal_names v] = every Ref / Fn::ImportValue body in v is a literal string that is rendered as itself (no {{resolve:ssm:..}},
+   no spelling of true / false), every Fn::Sub is in string form; every other function takes any such arguments.
+   [mentions k x] = the text k occurs inside some string leaf (or key) of x.
+   In that fragment the parameter names read are string leaves of v, their SSM keys, their ${placeholders}, or SSM keys in the
+   leaves of parameter values ... *)
+Theorem C07_literal_names_read : forall e v k, literal_names v = true -> In (AParam k) (snd (resolve_tr e v)) ->
+  In k (syn_names v) \/ In k (pv_names (params e)).
+Proof. exact syn_trace_sound. Qed.
+Print Assumptions C07_literal_names_read.
+(* ... hence: a text that occurs in no string of the expression and in no string of a parameter value is never read, and a
+   parameter bound to that name changes nothing *)
+Theorem C07_unmentioned_parameter_unused : forall e v k, literal_names v = true -> mentions k v = false ->
+  (forall p x, In (p, x) (params e) -> mentions k x = false) -> ~ In (AParam k) (snd (resolve_tr e v)).
+Proof. exact unmentioned_parameter_unused. Qed.
+Print Assumptions C07_unmentioned_parameter_unused.
+Theorem C07_add_unmentioned_parameter : forall e v k x, literal_names v = true -> mentions k v = false ->
+  (forall p y, In (p, y) (params e) -> mentions k y = false) ->
+  resolve {| params := (k, x) :: params e; mappings := mappings e; conds := conds e |} v = resolve e v.
+Proof. exact add_unmentioned_parameter. Qed.
+Print Assumptions C07_add_unmentioned_parameter.
+(* the fragment is needed: the expression of [C07_ex_computed_name] is outside it; {"Fn::Sub": "${AWS::Region}-x"} is inside *)
+Example C07_ex_literal_fragment :
+  literal_names v_ab = false /\
+  literal_names (VDict [(K_Sub, VStr [36;123;65;87;83;58;58;82;101;103;105;111;110;125;45;120])]) = true /\
+  mentions REGION (VDict [(K_Sub, VStr [36;123;65;87;83;58;58;82;101;103;105;111;110;125;45;120])]) = true /\
+  mentions [97; 98] (VDict [(K_Sub, VStr [36;123;65;87;83;58;58;82;101;103;105;111;110;125;45;120])]) = false.
+Proof. vm_compute. repeat split; reflexivity. Qed.
+
+(* ---- template level ---- *)
+(* resources: environments that agree on the accesses of the kept resources ([resources_trace]: gate open, until the first
+   exception), and condition tables that agree on the names in the resources' "Condition" attributes *)
+Theorem C07_resources_unused_ext : forall e e' resolved resolved' rs,
+  (forall c, In c (gate_names rs) -> lookup c resolved = lookup c resolved') ->
+  (forall k, In (AParam k) (resources_trace e resolved rs) -> lookup k (params e) = lookup k (params e')) ->
+  (forall m, In (AMap m) (resources_trace e resolved rs) -> lookup m (mappings e) = lookup m (mappings e')) ->
+  (forall n, In (ACond n) (resources_trace e resolved rs) -> conds e n = conds e' n) ->
+  resolve_resources e' resolved' rs = resolve_resources e resolved rs.
+Proof. exact resolve_resources_unused_ext. Qed.
+Print Assumptions C07_resources_unused_ext.
+(* one more resolved condition that gates no resource and that no kept resource asks about *)
+Theorem C07_resources_add_unused_condition : forall ps maps resolved rs n b,
+  ~ In n (gate_names rs) ->
+  ~ In (ACond n) (resources_trace {| params := ps; mappings := maps; conds := conds_fun resolved |} resolved rs) ->
+  resolve_resources {| params := ps; mappings := maps; conds := conds_fun ((n, b) :: resolved) |} ((n, b) :: resolved) rs =
+  resolve_resources {| params := ps; mappings := maps; conds := conds_fun resolved |} resolved rs.
+Proof. exact add_unused_resolved_condition. Qed.
+Print Assumptions C07_resources_add_unused_condition.
+(* the value of a condition depends on the parameters and mappings only through what its body reads and what the conditions
+   it asks about read, transitively ([cond_trace]) *)
+Theorem C07_condition_unused_ext : forall ps ps' maps maps' decl fuel rem n,
+  (forall k, In (AParam k) (cond_trace ps maps decl fuel rem n) -> lookup k ps = lookup k ps') ->
+  (forall m, In (AMap m) (cond_trace ps maps decl fuel rem n) -> lookup m maps = lookup m maps') ->
+  cond_val ps' maps' decl fuel rem n = cond_val ps maps decl fuel rem n.
+Proof. exact cond_val_unused_ext. Qed.
+Print Assumptions C07_condition_unused_ext.
+(* THE WHOLE MODEL: one more entry (k, d) in the Parameters section -- whose own binding does not raise -- under a name that no
+   declared condition and no kept resource reads ([model_trace] = the accesses of all conditions, then of the kept resources):
+   same conditions, same resources, same exception *)
+Theorem C07_add_unused_parameter_declaration : forall pseudo decls extra maps cdecl rs k d ov,
+  ref_value d (supplied k extra) = Ok ov ->
+  (forall ps, bind_params pseudo decls extra = Ok ps -> ~ In (AParam k) (model_trace ps maps cdecl rs)) ->
+  resolve_model pseudo ((k, d) :: decls) extra maps cdecl rs = resolve_model pseudo decls extra maps cdecl rs.
+Proof. exact add_unused_declaration. Qed.
+Print Assumptions C07_add_unused_parameter_declaration.
+(* one more entry in the Mappings section that nothing looks up *)
+Theorem C07_add_unused_mapping_declaration : forall pseudo decls extra maps cdecl rs m x,
+  (forall ps, bind_params pseudo decls extra = Ok ps -> ~ In (AMap m) (model_trace ps maps cdecl rs)) ->
+  resolve_model pseudo decls extra ((m, x) :: maps) cdecl rs = resolve_model pseudo decls extra maps cdecl rs.
+Proof. exact add_unused_model_mapping. Qed.
+Print Assumptions C07_add_unused_mapping_declaration.
+
+(* example: Parameters {Env: {Type: String, Default: prod}}, Mappings {M: {a: {b: c}}}, Conditions {IsProd: Equals [Ref Env, prod]},
+   Resources {R: {Type: T, Condition: IsProd, Properties: {N: If [IsProd, FindInMap [M, a, b], Ref AWS::Region]}}}.
+   The model reads parameter Env, condition IsProd, mapping M -- and not AWS::Region (the branch not taken).  Declaring
+   ZzUnused changes nothing. *)
+Definition s_Env : str := [69;110;118].
+Definition s_prod : str := [112;114;111;100].
+Definition s_String : str := [83;116;114;105;110;103].
+Definition s_IsProd : str := [73;115;80;114;111;100].
+Definition s_Properties : str := [80;114;111;112;101;114;116;105;101;115].
+Definition s_Zz : str := [90;122;85;110;117;115;101;100].
+Definition ex_pseudo : list (str * value) := [(REGION, VStr [101;117])].
+Definition ex_decls : list (str * value) := [(s_Env, VDict [(K_Type, VStr s_String); (K_Default, VStr s_prod)])].
+Definition ex_maps : list (str * value) := [([77], VDict [([97], VDict [([98], VStr [99])])])].
+Definition ex_cdecl : list (str * value) := [(s_IsProd, VDict [(K_Equals, VList [VDict [(K_Ref, VStr s_Env)]; VStr s_prod])])].
+Definition ex_rs : list (str * value) :=
+  [([82], VDict [(K_Type, VStr [84]); (K_Condition, VStr s_IsProd);
+                 (s_Properties, VDict [([78], VDict [(K_If, VList [VStr s_IsProd;
+                                                                  VDict [(K_FindInMap, VList [VStr [77]; VStr [97]; VStr [98]])];
+                                                                  VDict [(K_Ref, VStr REGION)]])])])])].
+Definition ex_zz_decl : value := VDict [(K_Type, VStr s_String); (K_Default, VStr [117;110;117;115;101;100])].
+Example C07_ex_model_trace :
+  bind_params ex_pseudo ex_decls [] = Ok [(s_Env, VStr s_prod); (REGION, VStr [101;117])] /\
+  model_trace [(s_Env, VStr s_prod); (REGION, VStr [101;117])] ex_maps ex_cdecl ex_rs = [AParam s_Env; ACond s_IsProd; AMap [77]] /\
+  ref_value ex_zz_decl (supplied s_Zz []) = Ok (Some (VStr [117;110;117;115;101;100])).
+Proof. vm_compute. repeat split; reflexivity. Qed.
+Example C07_ex_model_unused_declaration :
+  resolve_model ex_pseudo ((s_Zz, ex_zz_decl) :: ex_decls) [] ex_maps ex_cdecl ex_rs = resolve_model ex_pseudo ex_decls [] ex_maps ex_cdecl ex_rs /\
+  resolve_model ex_pseudo ex_decls [] ex_maps ex_cdecl ex_rs =
+    Ok (VDict [(K_Conditions, VDict [(s_IsProd, VBool true)]);
+               (K_Resources, VDict [([82], VDict [(K_Type, VStr [84]); (K_Condition, VStr s_IsProd);
+                                                  (s_Properties, VDict [([78], VStr [99])])])])]).
+Proof. vm_compute. split; reflexivity. Qed.
